@@ -60,6 +60,7 @@ type session struct {
 
 // sessionUplinkGeneric is used for passing information about relay uplink to the relay goroutine.
 type sessionUplinkGeneric struct {
+	state         *atomic.Pointer[net.UDPConn]
 	csid          uint64
 	clientName    string
 	natConn       *net.UDPConn
@@ -438,6 +439,7 @@ func (s *UDPSessionRelay) recvFromServerConnGeneric(ctx context.Context, lnc *ud
 
 				s.wg.Go(func() {
 					s.relayServerConnToNatConnGeneric(ctx, sessionUplinkGeneric{
+						state:         &entry.state,
 						csid:          csid,
 						clientName:    clientInfo.Name,
 						natConn:       natConn,
@@ -554,6 +556,12 @@ func (s *UDPSessionRelay) relayServerConnToNatConnGeneric(ctx context.Context, u
 				zap.Duration("natTimeout", uplink.natTimeout),
 				zap.Error(err),
 			)
+		}
+		// Stop swaps the session state before forcing the read deadline into the past.
+		// If that happened while we were sending, do not let the re-arm above keep the downlink
+		// goroutine, and therefore Stop, waiting for the NAT timeout.
+		if uplink.state.Load() != uplink.natConn {
+			_ = uplink.natConn.SetReadDeadline(conn.ALongTimeAgo)
 		}
 		verifhook.At("relay.uplink.afterRearm", s, uplink.csid)
 
